@@ -180,10 +180,34 @@ def compile_units(run, units, deps, profile, vmon, tag, extra_head="", nshards=N
             raise Inconclusive("shard failed to compile but no unit fails alone: " + diag_summary(c))
         if rest:
             rebuild.append((1000 + len(rebuild), rest))
+    second = []
     for i, us, c, ranges, sp in core.pmap(build, rebuild):
-        if not c.ok:
-            raise Inconclusive("shard still fails after removing failing units: " + diag_summary(c))
-        good.append((c.out, us))
+        if c.ok:
+            good.append((c.out, us))
+        else:
+            second.append((us, c))
+    # line attribution missed some failing units: fall back to compiling every remaining unit of those shards alone
+    for us, c0 in second:
+        res2 = core.pmap(build_single, us)
+        ok_units = []
+        for u, c, src in res2:
+            if c.ok:
+                ok_units.append(u)
+                continue
+            summ = diag_summary(c)
+            run.count("compile/corpus-enum-rejected")
+            run.violation(
+                "%s:%s:%s" % (compile_violation_sig, norm_msg(summ), u.sig),
+                "corpus enum %s (in the property's domain) does not compile against this tree [%s]: %s" % (u.name, profile["name"], summ),
+                detail={"unit": u.name, "meta": u.meta, "diagnostics": [d["rendered"] for d in c.errors()[:3]]},
+                replay_src=src, replay_meta={"profile": profile["name"], "deps": deps.cfg if deps else None, "kind": "compile"})
+        if len(ok_units) == len(us):
+            raise Inconclusive("shard fails to compile but every unit compiles alone: " + diag_summary(c0))
+        if ok_units:
+            i, us2, c, ranges, sp = build((2000 + len(good), ok_units))
+            if not c.ok:
+                raise Inconclusive("shard still fails after removing all failing units: " + diag_summary(c))
+            good.append((c.out, us2))
     return good
 
 
